@@ -277,6 +277,11 @@ func runBatch(t *testing.T, p Property, job *Job) (res BatchResult) {
 		t.Fatal(err)
 	}
 	defer jf.Close()
+	var tf *os.File
+	if tp := job.Extra["trace"]; tp != "" {
+		tf, _ = os.Create(tp)
+		defer tf.Close()
+	}
 	rw := newRaceWatch(job)
 	if job.MaxPerClass == 0 {
 		job.MaxPerClass = 2
@@ -315,6 +320,19 @@ func runBatch(t *testing.T, p Property, job *Job) (res BatchResult) {
 		ctx := &Ctx{T: t, Tier: job.Tier, Race: job.Race}
 		o := runOne(t, p, ctx, c, rw)
 		fmt.Fprintf(jf, "E %d\n", idx)
+		if tf != nil {
+			// determinism self-test: one line per run with everything the run produced
+			cls := ""
+			if o.V != nil {
+				cls = o.V.Class
+			}
+			var sh []interface{}
+			for _, key := range sortedKeys(o.Stats) {
+				sh = append(sh, key, o.Stats[key])
+			}
+			cb, _ := json.Marshal(c)
+			fmt.Fprintf(tf, "%d %d sig=%x nt=%v class=%q stats=%x case=%x\n", idx, rs, o.Sig, o.Nontrivial, cls, hash64(sh...), hash64(string(cb)))
+		}
 		res.Runs++
 		for _, key := range sortedKeys(o.Stats) {
 			res.Stats[key] += o.Stats[key]
